@@ -111,11 +111,37 @@ class Ref:
         self.counted_bits = set(self.bits)
 
 
+class Unparseable(Exception):
+    pass
+
+
+def fields(o):
+    """'k=v k=v ...' -> dict; anything else is an output the oracle refuses to interpret"""
+    out = {}
+    for x in o.split(" "):
+        if "=" not in x:
+            raise Unparseable(o)
+        k, v = x.split("=", 1)
+        out[k] = v
+    return out
+
+
 def oracle(case, line):
+    """TOTAL wrapper: whatever the implementation printed, the result is a list of (klass, text); an
+    output line that cannot be interpreted (error text where a result belongs, missing fields, ...)
+    is itself a violation with this case as replay, never an exception of the check."""
+    try:
+        return oracle_inner(case, line)
+    except Exception as e:          # noqa: the oracle must be total over implementation outputs
+        kl = "internal-error" if "ERR:internal" in line else "crash"
+        return [(kl, "implementation output cannot be interpreted (%s: %s): %s" % (type(e).__name__, str(e)[:80], line[:160]))]
+
+
+def oracle_inner(case, line):
     """Property C02 evaluated on ONE implementation output line. Returns list of (klass, text)."""
     if line.startswith("HANG"):
         return [("hang", "the implementation did not answer this case within the per-case watchdog: " + line[:80])]
-    if line.startswith("CRASH") or line.startswith("ERR:") or line.startswith("REJECT") or line in ("MISSING", "BADCASE"):
+    if line.startswith(("CRASH", "ERR:internal!", "ERR:local", "ERR:other", "REJECT")) or line in ("MISSING", "BADCASE"):
         return [("crash", "harness/impl crashed, rejected the torrent or raised outside an operation: " + line[:200])]
     cs, lay, ops = parse_case(case)
     outs = line.split(" | ")
@@ -177,7 +203,7 @@ def oracle(case, line):
                 if w or all(R.sized[fi] or lay[fi][1] for fi in touched):
                     fail("chunk-null", "chunk creation failed on a mappable range", j)
                 continue
-            f = dict(x.split("=", 1) for x in o.split(" "))
+            f = fields(o)
             parts = [] if f["parts"] == "-" else [p.split(":") for p in f["parts"].split(",")]
             got, cpos = [], 0
             for p in parts:
@@ -254,6 +280,9 @@ def oracle(case, line):
                 runs.append((t, ext, fi))
                 t += ext
             touched = [r_[2] for r_ in runs]
+            if o == "ERR:internal":
+                fail("chunk-refused", "valid chunk range refused", j)
+                continue
             if o == "NULL":
                 if w or all(R.sized[fi] or lay[fi][1] for fi in touched):
                     fail("chunk-null", "chunk creation failed on a mappable range", j)
@@ -264,7 +293,7 @@ def oracle(case, line):
             if w:
                 for fi in touched:
                     R.sized[fi] = True
-            f = dict(x.split("=", 1) for x in o.split(" "))
+            f = fields(o)
             if (f.get("pre") == "ok") != (first < ln):
                 fail("preload", "Chunk::preload(%d, ..) on a %d byte chunk: %s" % (first, ln, f.get("pre")), j)
             if first >= ln:
@@ -325,6 +354,9 @@ def oracle(case, line):
                 ext = min(ln - t, lay[fi][0] - fo)
                 files_t.append(fi)
                 t += ext
+            if o == "ERR:internal":
+                fail("chunk-refused", "valid hashing chunk refused", j)
+                continue
             if o == "NULL":
                 if all(R.sized[fi] or lay[fi][1] for fi in files_t):
                     fail("chunk-null", "hashing chunk creation failed on a mappable range", j)
@@ -375,7 +407,7 @@ def oracle(case, line):
             if (o == "1") != want:
                 fail("valid-piece", "is_valid_piece(%d,%d,%d) = %s, the layout says %s" % (idx, off, ln, o, int(want)), j)
         elif k == "Q":
-            f = dict(x.split("=", 1) for x in o.split(" "))
+            f = fields(o)
             sizes = [] if f["sizes"] == "-" else [int(x) for x in f["sizes"].split(",")]
             if int(f["chunks"]) != R.npieces or len(sizes) != R.npieces:
                 fail("piece-count", "size_chunks %s, expected %d" % (f["chunks"], R.npieces), j)
@@ -796,6 +828,11 @@ def big_cases(r, tier):
 
 
 HAND = [
+    # zero-length file strictly inside a piece (round-3 seed 3): the start-file lookup must land on the file holding the byte
+    "4096 5000,0,7000 ; Q ; I 0 1 0 0102 0 2 ; I 1 1 0 0304 0 2 ; I 1 1 900 0506 900 6 ; I 2 1 0 0708 0 2 ; X 1 1 890 930 0 7,7,7,7,7,7 "
+    + "ffeeddccbbaa99887766554433221100ffeeddccbbaa99887766554433221100ffeeddccbbaa9988 ; X 1 0 890 930 0 40 - ; H 1 - ; H 0 - ; P 0 4090 20 ; P 2 0 20 ; D",
+    "8192 5000,0,3192p,6000 ; Q ; I 0 1 0 0102 0 2 ; I 0 1 4990 a1a2a3a4a5a6a7a8a9aaabacadaeaf 4990 20 ; I 0 0 0 - 4990 20 ; I 1 1 0 0304 0 2 ; X 0 1 4995 5010 1 3,3,3,3,3 "
+    + "b1b2b3b4b5b6b7b8b9babbbcbdbebf ; X 0 0 4990 5010 0 20 - ; H 0 100,5000 ; H 1 - ; P 0 4980 20 ; P 3 0 8 ; D",
     "3 2,0,5,1p,0,4 ; Q ; D ; I 0 0 0 - 0 3 ; I 0 1 0 010203 0 3 ; D ; I 1 1 1 0a0b 0 3 ; I 2 1 0 1112 0 3 ; I 3 1 0 212223 0 3 ; D ; M 0 ; M 3 ; Q ; M 3 ; M 4 ; V 3 0 3 ; V 3 0 4 ; V 0 4294967295 2 ; Q",
     "4 10 ; C 3 5 1 0 0102030405 0 5 ; D ; C 0 10 0 2 - 0 10 ; C 8 3 1 0 01 0 1 ; C 10 0 1 0 - 0 0 ; C 2 4 1 3 0102 0 4 ; C 2 4 1 4 - 5 0 ; C 2 4 1 0 - 4 1",
     "1 1,1,1 ; I 1 1 0 07 0 1 ; D ; Q ; M 1 ; Q",
